@@ -1042,6 +1042,14 @@ func regRun(e *Env) {
 // ---------------------------------------------------------------------------
 // C19: capability negotiation
 
+// failingSasl is a sasl.Client whose Start returns an error.
+type failingSasl struct{}
+
+func (failingSasl) Start() (string, []byte, error) {
+	return "", nil, errors.New("sim: no token available for this mechanism")
+}
+func (failingSasl) Next([]byte) ([]byte, error) { return nil, errors.New("sim: not started") }
+
 func capRun(e *Env) {
 	g := G{e.S}
 	universe := []string{"multi-prefix", "away-notify", "account-notify", "extended-join"}
@@ -1060,7 +1068,7 @@ func capRun(e *Env) {
 			wanted = append(wanted, cp)
 		}
 	}
-	saslKind := g.W(4, 3, 2) // none, PLAIN, EXTERNAL
+	saslKind := g.W(4, 3, 2, 1) // none, PLAIN, EXTERNAL, a mechanism whose Start fails
 	if saslKind == 0 && g.Pct(25) {
 		// sasl listed as an ordinary wanted capability, no SASL client configured:
 		// an ACK containing it starts nothing
@@ -1105,7 +1113,13 @@ func capRun(e *Env) {
 	case 2:
 		cfg.Sasl = sasl.NewExternalClient(extID)
 		wantMech, wantIR = "EXTERNAL", extID
+	case 3:
+		// a mechanism that cannot start (it would have to fetch a token first):
+		// an ACK containing sasl then starts nothing and is followed by CAP END
+		cfg.Sasl = failingSasl{}
+		e.S.Count("fault.sasl-client-fails-to-start")
 	}
+	saslStarts := saslKind == 1 || saslKind == 2
 	wantSet := map[string]bool{}
 	for _, w := range wanted {
 		wantSet[w] = true
@@ -1125,7 +1139,7 @@ func capRun(e *Env) {
 	}
 	intersect()
 	e.Notef("sessions=%d wanted=%d; first server: advertised=%d intersection=%d sasl=%s advertised-sasl=%v reply=%s outcome=%s", nSessions, len(wantSet), len(advertised), len(inter),
-		[]string{"none", "PLAIN", "EXTERNAL"}[saslKind], saslAdvertised, []string{"ACK", "NAK"}[reply], outcome)
+		[]string{"none", "PLAIN", "EXTERNAL", "failing-to-start"}[saslKind], saslAdvertised, []string{"ACK", "NAK"}[reply], outcome)
 	c := client.Client(cfg)
 	discs := 0
 	c.HandleFunc(client.DISCONNECTED, func(*client.Conn, *client.Line) { discs++ })
@@ -1264,7 +1278,7 @@ func capRun(e *Env) {
 					for _, cp := range caps {
 						enabled[cp] = true
 					}
-					if hasSasl && saslKind != 0 {
+					if hasSasl && saslStarts {
 						ln, ok := nextLine()
 						e.Check()
 						if !ok || ln != "AUTHENTICATE "+wantMech {
@@ -1353,7 +1367,7 @@ func capRun(e *Env) {
 					e.S.Count("probe.later-ack-enables-capability-again")
 					ln, ok := nextLine()
 					e.Check()
-					if saslKind != 0 && strings.Contains(" "+again+" ", " sasl ") {
+					if saslStarts && strings.Contains(" "+again+" ", " sasl ") {
 						// this one does acknowledge sasl: the exchange starts over, and
 						// the server lets it fail
 						if !ok || ln != "AUTHENTICATE "+wantMech {
@@ -1368,7 +1382,7 @@ func capRun(e *Env) {
 						fail("end-after-ack", "after the later ACK of %q want CAP END in the end, got %q", clip(again), ln)
 						return
 					}
-				} else if cp == "sasl" && saslKind != 0 && saslAsked && g.S.Choose(2) == 0 {
+				} else if cp == "sasl" && saslStarts && saslAsked && g.S.Choose(2) == 0 {
 					// sasl is no longer acknowledged and the data of the earlier exchange
 					// has been asked for and given: a server asking again must get
 					// nothing.  (When the earlier exchange was left unfinished the
